@@ -195,7 +195,7 @@ end Corgi
 namespace Corgi
 variable {S : Type} [Add S] [Mul S] [Neg S] [Sub S] [ScalarOps S]
 
-theorem mk?_ok (dims : List Nat) (vals : List S) (hpos : ∀ d ∈ dims, 1 ≤ d) (hlen : prod dims = vals.length) :
+theorem mkq_ok (dims : List Nat) (vals : List S) (hpos : ∀ d ∈ dims, 1 ≤ d) (hlen : prod dims = vals.length) :
     Tensor.mk? dims vals = .ok ⟨dims, vals⟩ := by
   unfold Tensor.mk?
   have hall : dims.all (fun d => decide (1 ≤ d)) = true := by
@@ -272,7 +272,7 @@ theorem matmul_core (la lb lead : List Nat) (a1 a2 b1 b2 x1 x2 m n kk : Nat) (ta
       (by simpa [unflatten] using hsl) hop (by simp [blk, prod])
     rw [this]
     simp only [flattenTrailing, if_true, Except.bind, pure, Except.pure]
-    rw [mk?_ok _ _ hposO (by simp [blk, prod])]
+    rw [mkq_ok _ _ hposO (by simp [blk, prod])]
     have hv := hvals
     simp only [prod, List.range_one, List.map_cons, List.map_nil, List.flatten_cons, List.flatten_nil,
       List.append_nil] at hv
@@ -291,7 +291,7 @@ theorem matmul_core (la lb lead : List Nat) (a1 a2 b1 b2 x1 x2 m n kk : Nat) (ta
     rw [htakeD] at hmain
     rw [hmain]
     simp only [flattenTrailing, if_true, Except.bind, pure, Except.pure]
-    rw [hvals, mk?_ok _ _ hposO (by simp [prod_append, prod])]
+    rw [hvals, mkq_ok _ _ hposO (by simp [prod_append, prod])]
 
 end Corgi
 
